@@ -133,6 +133,31 @@ impl<S: Clone + Debug> SymbolTable<S> {
         self.graph.remove_node(nx);
     }
 
+    /// Removes everything that holds no data and has nothing below it (anymore)
+    pub fn remove_empty_leaves(&mut self) {
+        loop {
+            let empty = self
+                .graph
+                .node_indices()
+                .filter(|nx| {
+                    *nx != self.root
+                        && self.graph[*nx].data.is_none()
+                        && self
+                            .graph
+                            .edges_directed(*nx, Direction::Outgoing)
+                            .next()
+                            .is_none()
+                })
+                .collect_vec();
+            if empty.is_empty() {
+                break;
+            }
+            for nx in empty {
+                self.graph.remove_node(nx);
+            }
+        }
+    }
+
     pub fn remove_all(&mut self, nx: SymbolIndex) {
         for child in self.children(nx).values() {
             self.remove_all(*child);
